@@ -3,7 +3,10 @@ from fractions import Fraction
 from harness import Case
 from props.common import MODES, OFFSETS, rand_tp, rand_zone
 from props.pairs import gen_pairs, pair_model_lines, pair_judge
-from props.tpcommon import is_tp, tp_form
+from props.tpcommon import is_tp, tp_form, q
+from props.textcommon import enc, dec
+
+IMPL_MODULES = ("impl_text",)
 
 RULE = ("each seeded point (3 representations, any source offset incl. +-99:59 and negative minutes with zero hours, time forms "
         "incl. 24:00, near every boundary, 4 modes) is re-zoned with to_time_zone to catalogue and random destination offsets, "
@@ -36,10 +39,31 @@ def generate(rng, tier):
                         cases.append(Case(["tz %s %s %d %d" % (md, p, z[0], z[1])], ["op:tz", "sweep", "mode:" + md],
                                           md=md, p=p, z="%d %d" % z, fam="Z", fl=tp_form(p)[1] != "S"))
     cases += gen_pairs(rng, 1500 if tier == "quick" else 20000, same_frac=1.0)
+    # dumping with a format that spells out a literal zone: Z, +-hh, +-hhmm, +-hh:mm
+    for i in range(1200 if tier == "quick" else 20000):
+        md = MODES[i % 4]
+        from props.common import rand_date
+        y = rng.choice([1, 1999, 2000, 2004, 9998, rng.randint(1, 9998)])
+        p = "%s S %d %d %d %d %d" % ((rand_date(rng, md, y), rng.randint(0, 23), rng.randint(0, 59), rng.randint(0, 59)) + rand_zone(rng))
+        lz = rand_zone(rng)
+        ext = rng.random() < 0.5
+        sign = "-" if (lz[0] < 0 or lz[1] < 0) else "+"
+        if lz == (0, 0):
+            ztxt = "Z"
+        elif lz[1] == 0 and rng.random() < 0.4:
+            ztxt = "%s%02d" % (sign, abs(lz[0]))
+        else:
+            ztxt = ("%s%02d:%02d" if ext else "%s%02d%02d") % (sign, abs(lz[0]), abs(lz[1]))
+        dexpr = rng.choice(["CCYY-MM-DD", "CCYY-DDD", "CCYY-Www-D"] if ext else ["CCYYMMDD", "CCYYDDD", "CCYYWwwD"])
+        fmt = dexpr + ("Thh:mm:ss" if ext else "Thhmmss") + ztxt
+        cases.append(Case(["dumpparse %s 0 %s %s" % (md, p, enc(fmt))], ["op:dump-literal-zone", "mode:" + md, "zone:" + ztxt[:1]],
+                          md=md, p=p, fam="L", fmt=fmt, ztxt=ztxt))
     return cases
 
 
 def model_lines(c):
+    if c.meta.get("fam") == "L":
+        return list(c.lines)
     if c.meta.get("fam") != "Z":
         return pair_model_lines(c)
     md = c.meta["md"]
@@ -50,6 +74,19 @@ def model_lines(c):
 
 
 def judge(c):
+    if c.meta.get("fam") == "L":
+        I, M = c.impl[0], c.model[0]
+        res = []
+        if I != M and M != "UNMODELLED":
+            res.append(("disagree", "%s: implementation %r, model %r" % (c.lines[0], I, M)))
+        if I == "ERR bounds":
+            return res          # the conversion left the year range 0000-9999 of the format
+        parts = [x.strip() for x in I.split(";")]
+        if len(parts) != 2 or parts[1] != "EQ":
+            res.append(("violation", "%s dumped with the literal-zone format %r gives %s: not equal to the original" % (c.meta["p"], c.meta["fmt"], I)))
+        elif not dec(parts[0]).endswith(c.meta["ztxt"]):
+            res.append(("violation", "%s dumped with %r gives %r: does not carry the requested zone text" % (c.meta["p"], c.meta["fmt"], dec(parts[0]))))
+        return res
     if c.meta.get("fam") != "Z":
         return pair_judge(c)
     I, M = c.impl[0], c.model
@@ -73,6 +110,8 @@ def judge(c):
 
 
 def nontrivial(c):
+    if c.meta.get("fam") == "L":
+        return True
     if c.meta.get("fam") == "Z":
         return tp_form(c.meta["p"])[2] != c.meta["z"]
     return True
